@@ -8,8 +8,24 @@ package performance
 // Loading the universe reads a YAML file (external decoder): trusted to touch only the commodity registry.
 //@ func LoadUniverseFromFile
 //@   trusted
-//@   requires reg != nil
+//@   requires wfCommodities(reg)
 //@   modifies reg.index[*]
+//@   ensures wfCommodities(reg)
+//
+// fromYAML (verified): the registry stays well formed; every listed commodity is classified exactly
+// once - each completed inner iteration adds one NEW key (ghost counter `writes`), so a commodity listed
+// twice, in the same class or in two classes, is an error whatever order the map of classes is ranged in.
+//@ func fromYAML
+//@   requires wfCommodities(reg)
+//@   modifies reg.index[*]
+//@   ensures wfCommodities(reg)
+//@   ensures result.1 == nil ==> result.0 != nil && fresh(result.0)
+//@   ghost writes int = 0
+//@   loop 2 ghost-end writes := writes + 1
+//@   loop 1 invariant wfCommodities(reg) && universe != nil && fresh(universe)
+//@   loop 1 invariant [C06] @once: len(universe) == writes
+//@   loop 2 invariant wfCommodities(reg) && universe != nil && fresh(universe)
+//@   loop 2 invariant [C06] @once: len(universe) == writes
 //
 // The daily performance factor: with v0/v1 the sums of the values at the start/end of the day, inflow
 // and outflow the external flows of the day (outflows are negative numbers):
